@@ -1,10 +1,10 @@
 package simrt
 
 import (
-	"strings"
 	"fmt"
 	"os"
 	"runtime"
+	"strings"
 	"sync"
 	"syscall"
 	"time"
@@ -134,15 +134,15 @@ type Sim struct {
 	// SiteBits: approximate set of yield sites executed (bit = FNV(site) mod 4096)
 	SiteBits [64]uint64
 
-	Deadlock  bool
-	Capped    bool
+	Deadlock bool
+	Capped   bool
 	// NativeBlocked: the task holding the baton sits in a blocking primitive the simulator does not
 	// model (one inside a dependency, say) and no other task can ever release it because they are
 	// all parked. Not a verdict about the code: the harness repeats the workload with ordinary
 	// goroutines. BlockedInfo is the goroutine state and innermost frames.
 	NativeBlocked bool
 	BlockedInfo   string
-	StuckSite string
+	StuckSite     string
 
 	// InBuild classifies a yield site as "inside the schema build path"
 	// (used for the stall-in-build fault and the overlap probes).
